@@ -42,6 +42,10 @@ FINGERPRINTS = [
     (L + "blocking_async/rust_analyzer.py", ["_check_blocking_call"]),
     (L + "srp/typescript_analyzer.py", ["analyze_class", "find_all_classes"]),
     (L + "print_statements/typescript_analyzer.py", ["_collect_console_calls"]),
+    (L + "dry/constant_violation_builder.py", ["ConstantViolationBuilder"]),
+    (L + "dry/python_constant_extractor.py", ["_extract_from_assign", "_extract_from_ann_assign", "_to_const_info"]),
+    (L + "dry/typescript_constant_extractor.py", ["TypeScriptConstantExtractor"]),
+    ("src/core/linter_utils.py", ["get_line_context"]),
 ]
 
 
@@ -204,6 +208,28 @@ def _builders():
     k = _all_equal([_enumerate_start(L + "dry/python_analyzer.py", "_tokenize_with_line_numbers", "PythonDuplicateAnalyzer"),
                     _enumerate_start(L + "dry/typescript_analyzer.py", "_tokenize_with_line_numbers", "TypeScriptDuplicateAnalyzer")], "dry enumerate start")
     out.append(("dry", f"LBase0 {k}", classify_col(site_expr(db, "build_violation", "column", "DRYViolationBuilder"))))
+    # DRY duplicate constants: the extractors record line_number, ConstantViolationBuilder reports loc.line_number, column 1
+    cvb = L + "dry/constant_violation_builder.py"
+    if ast.unparse(site_expr(cvb, "_violations_for_group", "line", "ConstantViolationBuilder")) != "loc.line_number":
+        raise Unsupported("constant violation line is not loc.line_number")
+    ccol = classify_col(site_expr(cvb, "_violations_for_group", "column", "ConstantViolationBuilder"))
+    pce = L + "dry/python_constant_extractor.py"
+    if ast.unparse(site_expr(pce, "_to_const_info", "line_number")) != "lineno":
+        raise Unsupported("_to_const_info does not forward lineno")
+    pf = find_func(parse(pce), "_to_const_info")
+    if [a.arg for a in pf.args.args][2:3] != ["lineno"]:
+        raise Unsupported("_to_const_info third parameter")
+    third = []
+    for fn in ("_extract_from_assign", "_extract_from_ann_assign"):
+        for n in ast.walk(find_func(parse(pce), fn)):
+            if isinstance(n, ast.Call) and isinstance(n.func, ast.Name) and n.func.id == "_to_const_info":
+                if len(n.args) != 3 or n.keywords:
+                    raise Unsupported("_to_const_info call shape")
+                third.append(classify_line(n.args[2]))
+    if len(third) != 2:
+        raise Unsupported(f"_to_const_info calls: {len(third)}")
+    out.append(("dry.constant.py", _all_equal(third, "python constant line"), ccol))
+    out.append(("dry.constant.ts", classify_line(site_expr(L + "dry/typescript_constant_extractor.py", "_extract_from_declarator", "line_number", "TypeScriptConstantExtractor")), ccol))
     # print statements
     pb = L + "print_statements/violation_builder.py"
     for lang, an, afn, acls, bfn in (("py", "python_analyzer.py", "_collect_print_calls", "PythonPrintStatementAnalyzer", "create_python_violation"),
